@@ -409,7 +409,7 @@ void generate_math_utility_builtins(StringBuilder *sb) {
     sb_append(sb, "    int64_t str_len = strnlen(str, 1024*1024);\n");
     sb_append(sb, "    if (start < 0 || start > str_len || length < 0) return \"\";\n");
     sb_append(sb, "    if (start == str_len) return \"\";\n");
-    sb_append(sb, "    if (start + length > str_len) length = str_len - start;\n");
+    sb_append(sb, "    if (length > str_len - start) length = str_len - start;  /* no start + length: it can overflow */\n");
     sb_append(sb, "    char* result = gc_alloc_string(length);\n");
     sb_append(sb, "    if (!result) return \"\";\n");
     sb_append(sb, "    strncpy(result, str + start, length);\n");
@@ -460,8 +460,8 @@ void generate_math_utility_builtins(StringBuilder *sb) {
     sb_append(sb, "    if (length < 0) length = 0;\n");
     sb_append(sb, "    int64_t len = dyn_array_length(arr);\n");
     sb_append(sb, "    if (start > len) start = len;\n");
+    sb_append(sb, "    if (length > len - start) length = len - start;  /* no overflow in start + length */\n");
     sb_append(sb, "    int64_t end = start + length;\n");
-    sb_append(sb, "    if (end > len) end = len;\n");
     sb_append(sb, "    ElementType t = dyn_array_get_elem_type(arr);\n");
     sb_append(sb, "    DynArray* out = dyn_array_new(t);\n");
     sb_append(sb, "    if (!out) return NULL;\n");
